@@ -468,9 +468,9 @@ func ruleAnonTag(c *Ctx, rule string) {
 			return
 		}
 		fld, ok := ifi.Cond.(*ssa.Field)
-		if !ok || core.StructField(fld.X.Type(), fld.Field).Name() != "Anonymous" || !isNamed(fld.X.Type(), "reflect", "StructField") {
+		if !ok || core.CanonFieldOf(fld.X.Type(), fld.Field) != "Anonymous" || !isNamed(fld.X.Type(), "reflect", "StructField") {
 			if ld, isLd := ifi.Cond.(*ssa.UnOp); isLd {
-				if fa, isFa := ld.X.(*ssa.FieldAddr); isFa && core.StructField(fa.X.Type(), fa.Field).Name() == "Anonymous" && isNamed(fa.X.Type(), "reflect", "StructField") {
+				if fa, isFa := ld.X.(*ssa.FieldAddr); isFa && core.CanonFieldOf(fa.X.Type(), fa.Field) == "Anonymous" && isNamed(fa.X.Type(), "reflect", "StructField") {
 					goto found
 				}
 			}
@@ -661,10 +661,10 @@ func (c *Ctx) isDocumentedFieldSkip(g guardAtom) bool {
 	var fieldName string
 	switch x := cond.(type) {
 	case *ssa.Field:
-		fieldName = core.StructField(x.X.Type(), x.Field).Name()
+		fieldName = core.CanonFieldOf(x.X.Type(), x.Field)
 	case *ssa.UnOp:
 		if fa, ok := x.X.(*ssa.FieldAddr); ok {
-			fieldName = core.StructField(fa.X.Type(), fa.Field).Name()
+			fieldName = core.CanonFieldOf(fa.X.Type(), fa.Field)
 		}
 	}
 	for _, n := range names {
@@ -1244,10 +1244,10 @@ func (c *Ctx) mentionsNamedField(v ssa.Value, name string, depth int) bool {
 	}
 	switch x := v.(type) {
 	case *ssa.Field:
-		return core.StructField(x.X.Type(), x.Field).Name() == name || c.mentionsNamedField(x.X, name, depth-1)
+		return core.CanonFieldOf(x.X.Type(), x.Field) == name || c.mentionsNamedField(x.X, name, depth-1)
 	case *ssa.UnOp:
 		if fa, ok := x.X.(*ssa.FieldAddr); ok {
-			return core.StructField(fa.X.Type(), fa.Field).Name() == name
+			return core.CanonFieldOf(fa.X.Type(), fa.Field) == name
 		}
 		return c.mentionsNamedField(x.X, name, depth-1)
 	case *ssa.Slice:
